@@ -8,7 +8,7 @@ THEOREMS = ["Props.C09.saveMember_consistent", "Props.C09.c09_consistent", "Prop
 def run(check, tier):
     import archive_suite as S
 
-    n = 400 if tier == "quick" else 8000
+    n = 800 if tier == "quick" else 8000
     cases = [S.gen_case_archive(check.seed, i) for i in range(n)]
     results = run_cases("archive_suite", "case_archive", cases, chunk=8)
     methods = {}
